@@ -20,10 +20,10 @@ bad=[f for f in failed if any(s.endswith('::'+f) for s in stable)]
 print(f"suite: {passed} passed, {len(failed)} failed; stable tests broken: {bad}")
 open(f'/tmp/seed_{ID}.suite.verdict','w').write(json.dumps({"passed":passed,"failed":len(failed),"stable_broken":bad}))
 PY
-git stash -q
+git apply -R /tmp/seed_$ID.patch || { echo 'cannot reverse patch'; exit 2; }
 echo "== build without change"; CARGO_TARGET_DIR=$T cargo build --offline 2>&1 | grep -E "^error" -A5 | head
 ( ./demo.sh > /tmp/seed_$ID.demo_without.log 2>&1 ); WITHOUT=$?
-git stash pop -q
+git apply /tmp/seed_$ID.patch
 echo "demo exit with change: $WITH ; without: $WITHOUT"
 OK=$(python3 -c "import json;v=json.load(open('/tmp/seed_$ID.suite.verdict'));print(int(not v['stable_broken'] and v['passed']>=492))")
 if [ "$WITH" -ne 0 ] && [ "$WITHOUT" -eq 0 ] && [ "$OK" = "1" ]; then
@@ -38,7 +38,7 @@ demo=open(f'/tmp/seed/{ID}/DEMO.md').read()
 meta={"id":ID,"property":ID,"property_title":prop['title'],"origin":"independent sub-agent given only the property text and a scratch worktree",
  "needs_to_manifest":demo[:1500],
  "confirmed":{"compiles":True,"suite_passed":v['passed'],"suite_failed_baseline_always_fail":v['failed'],"stable_tests_broken":v['stable_broken'],"demo_exit_with_change":int(w),"demo_exit_without_change":int(wo),
-   "what_was_run":"tools/verify_seed.sh: cargo build; ./demo.sh (with change); cargo test --workspace --no-fail-fast --offline compared with /root/.vp/BASELINE.json stable_pass; git stash; cargo build; ./demo.sh (without change)"},
+   "what_was_run":"tools/verify_seed.sh: cargo build; ./demo.sh (with change); cargo test --workspace --no-fail-fast --offline compared with /root/.vp/BASELINE.json stable_pass; git apply -R; cargo build; ./demo.sh (without change)"},
  "checks_to_run":[ID]}
 json.dump(meta,open(f'/verif/seeded/{ID}/meta.json','w'),indent=1)
 PY
